@@ -1,2 +1,4 @@
-/-! Stub driver: the model driver for this property is not built yet. -/
-def main : IO Unit := IO.println "unimplemented"
+import JoblibModel.MemoryDriver
+/-! Driver for C06: the history interpreter over `JoblibModel.MemoryCache.step` (protocol in
+`JoblibModel/MemoryDriver.lean`, shared with C02). -/
+def main : IO Unit := JoblibModel.MemoryDriver.main
